@@ -53,7 +53,7 @@ def generate(rng, tier):
             for L in (1, 2, 3):
                 for seq in itertools.product(ALPHABET, repeat=L):
                     cases.append(["store new %d 1 0" % n] + list(seq) + ["store stats"])
-    ncase, nops = {"quick": (150, 25), "thorough": (400, 400), "search": (600, 30)}.get(tier, (150, 25))
+    ncase, nops = {"quick": (400, 25), "thorough": (400, 400), "search": (600, 30)}.get(tier, (150, 25))
     for _ in range(ncase):
         lines = ["store new %d %d 0" % (rng.randint(1, 5), rng.randint(0, 3))]
         for _ in range(nops):
